@@ -342,6 +342,54 @@ package tree
 //@   call strconv.FormatFloat [plain_decimal_shortest_representation_of_a_value_stored_on_the_branch] a1 == 102 && a2 == -1 && a3 == 64 && (a0 == n.br[i].support || a0 == n.br[i].pvalue || a0 == n.br[i].length)
 //@   call (*tree.Node).Newick [children_are_written_with_this_node_as_parent_into_the_same_buffer] a0 == child && a1 == n && a2 == newick && child != parent
 
+// Hash sums of the two sides of every branch (property C04).  tax_hash is FNV-1a of the name: a function of the
+// string (trusted).  Down pass: the right-hand sums of a branch are reset, a tip contributes its name hash and counts
+// one, an inner node adds the right-hand sums of each of its other branches right after having computed them.
+// Up pass: the left-hand sums of a branch are reset, then every other branch of its upper end contributes the sums of
+// the side that does not contain the branch (right-hand sums when it descends from that node, left-hand sums when it
+// is the branch through which that node is reached).
+//@ spec taxhash(s string) int
+//@ func tree.tax_hash
+//@   assigns nothing
+//@   ensures [a_function_of_the_name] result == taxhash(s) && result >= 0
+
+//@ func (*tree.Tree).computeEdgeHashesRightRecur
+//@   flag noframe
+//@   requires t != nil && cur != nil && INV12() && (len(cur.neigh) == 1 ==> e != nil)
+//@   store Edge.hashcoderight [reset_then_name_hash_of_a_tip_or_plus_the_sum_of_a_child_branch] target == e && (newval == 0 || (len(cur.neigh) == 1 && newval == taxhash(cur.name)) || (len(cur.neigh) != 1 && newval == oldval + nextEdge.hashcoderight))
+//@   store Edge.ntaxright [reset_then_one_for_a_tip_or_plus_the_count_of_a_child_branch] target == e && (newval == 0 || (len(cur.neigh) == 1 && newval == oldval + 1) || (len(cur.neigh) != 1 && newval == oldval + nextEdge.ntaxright))
+//@   call (*tree.Tree).computeEdgeHashesRightRecur [descends_to_every_other_neighbour_through_its_own_branch] a1 == n && a2 == cur && a3 == nextEdge && n != prev && nextEdge == cur.br[rangeindex + 1]
+//@   loop 1
+//@     invariant [still_well_formed] INV12() && t != nil && cur != nil
+
+//@ func (*tree.Tree).computeEdgeHashesLeftRecur
+//@   flag noframe
+//@   requires t != nil && cur != nil && INV12() && (e != nil ==> prev != nil && allocated(prev))
+//@   store Edge.hashcodeleft [reset_then_plus_the_far_side_sum_of_every_other_branch_of_the_upper_end] target == e && (newval == 0 || (n == prevE.right && newval == oldval + prevE.hashcoderight) || (n != prevE.right && n == prevE.left && newval == oldval + prevE.hashcodeleft))
+//@   store Edge.ntaxleft [reset_then_plus_the_far_side_count_of_every_other_branch_of_the_upper_end] target == e && (newval == 0 || (n == prevE.right && newval == oldval + prevE.ntaxright) || (n != prevE.right && n == prevE.left && newval == oldval + prevE.ntaxleft))
+//@   call (*tree.Tree).computeEdgeHashesLeftRecur [descends_to_every_other_neighbour_through_its_own_branch] a1 == n && a2 == cur && a3 == nextEdge && n != prev && nextEdge == cur.br[rangeindex + 1]
+//@   loop 1
+//@     step [the_branch_itself_contributes_nothing] n == atHead(cur) ==> e.hashcodeleft == atHead(e.hashcodeleft) && e.ntaxleft == atHead(e.ntaxleft)
+
+// UpdateBitSet / fillRightBitSet (property C04): the bitset of a branch is cleared when the walk reaches it; at a tip
+// branch the tip's bit is set in the bitset of every branch on the path from the root branch down to it (the list
+// handed down, which is extended by a child branch before descending into it and restored afterwards)
+//@ func (*tree.Tree).fillRightBitSet
+//@   flag noframe
+//@   requires t != nil && currentEdge != nil && currentEdge.right != nil && rightEdges != nil && INV12()
+//@   requires forall k int :: {(*rightEdges)[k]} 0 <= k && k < len(*rightEdges) ==> (*rightEdges)[k] != nil
+//@   call (*github.com/fredericlemoine/bitset.BitSet).ClearAll [the_branch_reached_is_cleared_first] a0 == currentEdge.bitset
+//@   call (*github.com/fredericlemoine/bitset.BitSet).Set [the_tip_s_bit_is_set_in_every_branch_of_the_path] a0 == (*rightEdges)[rangeindex + 1].bitset && a1 == i && len(currentEdge.right.neigh) == 1
+//@   call (*tree.Tree).fillRightBitSet [descends_through_every_branch_leaving_the_lower_end_after_adding_it_to_the_path] a1 == e2 && e2.left == currentEdge.right && a2 == rightEdges && len(*rightEdges) >= 1 && (*rightEdges)[len(*rightEdges) - 1] == e2
+//@   ensures [the_path_is_restored] result == nil ==> len(*rightEdges) == old(len(*rightEdges))
+//@   loop 2
+//@     invariant [path_length_restored_after_each_child] len(*rightEdges) == old(len(*rightEdges)) && rightEdges != nil && t != nil && currentEdge != nil && currentEdge.right != nil
+
+//@ func (*tree.Tree).UpdateBitSet
+//@   flag noframe
+//@   requires t != nil && t.root != nil
+//@   call (*tree.Tree).fillRightBitSet [every_root_branch_starts_a_path_of_its_own] a1 == e && len(rightedges) == 1 && rightedges[0] == e
+
 // ClearBitSets / clearBitSetsRecur (property C04): every branch below the starting node gets a bitset of its own,
 // created for the current number of indexed tips, and zeroed hash sums, before the walk descends through it
 //@ func (*tree.Tree).clearBitSetsRecur
